@@ -111,6 +111,12 @@ class Evaluator:
                 raise Unknown("is_iterable")
             if fn in ("np.dtype",):
                 return ("sym", norm(n))
+            if fn in ("np.shape", "numpy.shape", "np.ndim") and len(n.args) == 1:
+                v = self.ev(n.args[0])
+                if isinstance(v, Desc):
+                    shp = tuple(v.shape) if v.kind == "ndarray" else ((v.length,) if v.kind in ("list", "tuple") and v.length is not None else ())
+                    return shp if fn.endswith("shape") else len(shp)
+                raise Unknown(fn)
             raise Unknown(fn)
         if isinstance(n, ast.Attribute):
             # T.btype.shape
